@@ -327,6 +327,10 @@ def mrpWriteOk (s : State) (o : Obj) (x : Sentinel) : Bool :=
   -- running job, `_stage_defs` parse in `doChunks`, `Chunk.verifyOutput` at the start of `doJoin`,
   -- reading the join's `_outs` in `doComplete`); split and chunks only before the join is submitted
   | .errors, .join => !fmDone s o.n o.f
+  -- the split (heartbeat / queue query while it runs, `_stage_defs` parse in `doChunks`) only before any
+  -- chunk of the fork has been submitted
+  | .errors, .split => !fmDone s o.n o.f && s.st ⟨o.n, o.f, .join⟩ == none &&
+      (List.range (s.nch o.n o.f)).all fun i => !(s.m ⟨o.n, o.f, .chunk i⟩).disk.jobinfo
   | .errors, _ => !fmDone s o.n o.f && s.st ⟨o.n, o.f, .join⟩ == none
   | .complete, .split =>
     s.phase == .normal && s.kind o.n == .stage && s.cachedOf o.n == .running &&
@@ -382,9 +386,14 @@ def resetOk (s : State) (o : Obj) : Bool :=
      -- completion only loses the sentinel (the branch added by the repair 23063ab)
      ((s.m o).disk.queued && s.dst o != some .complete))
 
-/-- nothing is left in any directory of fork (n, f) -/
+/-- nothing is left in the job directories of fork (n, f), and its own metadata holds nothing but
+(possibly) `_disabled`: the placeholder fork of a mapped call that was disabled before its forks
+were known is replaced by the real forks when mrp re-attaches
+(corpus/sched/reopen-disabled-map.trace) -/
 def forkEmpty (s : State) (n f : Nat) : Bool :=
-  (s.m ⟨n, f, .fork⟩).disk == {} && (s.m ⟨n, f, .split⟩).disk == {} && (s.m ⟨n, f, .join⟩).disk == {} &&
+  (!(s.m ⟨n, f, .fork⟩).disk.errors && !(s.m ⟨n, f, .fork⟩).disk.assert &&
+    !(s.m ⟨n, f, .fork⟩).disk.complete) &&
+  (s.m ⟨n, f, .split⟩).disk == {} && (s.m ⟨n, f, .join⟩).disk == {} &&
   (List.range (s.nch n f)).all fun i => (s.m ⟨n, f, .chunk i⟩).disk == {}
 
 def allFresh (s : State) : Bool :=
@@ -411,7 +420,7 @@ def guards (s : State) : Ev → List (String × Bool)
                     s.phase != Phase.normal || (!nodeDone s n && s.cachedOf n != NState.running))]
   | .forkorder n l => [("only-at-load", s.phase == .loading), ("not-a-sublist-of-known-forks", isSubNodup l (s.forksOf n)),
                        -- re-attaching rebuilds the fork list from what exists: a fork is only dropped from it
-                       -- when nothing is left in its directories
+                       -- when nothing is left in its job directories (and it is neither complete nor failed)
                        ("dropped-fork-not-empty", (s.forksOf n).all fun f => l.contains f || forkEmpty s n f)]
   | .mkchunks n f k =>
       [("mrp-dead", s.phase != Phase.crashed), ("no-such-fork", s.hasObj ⟨n, f, .fork⟩),
